@@ -91,6 +91,14 @@ CHECKS["C03"] = (
     "DESIGN.md section 2 / C03",
 )
 
+CHECKS["C06"] = (
+    "proptest-generated C type graphs and C++ template graphs x targets x assertion forms; completeness predicate over the syn inventory + differential of every asserted number against a `clang --target=T` constant table",
+    "exploration",
+    "Both emitted assertion forms (const blocks and #[test] functions) are decoded from the bindings into (type, size, alignment, offsets). Completeness: every concrete struct/union in the emitted inventory has exactly one block with size, alignment and an offset for each exposed named field, and each instantiation with concrete arguments used as a member type has a size/alignment block. Numbers: each asserted number equals the entry of a constant table (sizeof/_Alignof/offsetof expressions over the same header) that clang compiles for the same target, for the host and two drawn targets out of eight incl. 32-bit, Windows and wasm. Off switch: with --no-layout-tests the inventory minus assertion items is identical and no assertion remains.",
+    "clang binary vs libclang agreement per target; anonymous-member types are checked for completeness and relative offsets only; widths portable to ILP32/LLP64 are generated (no __int128, long bit-fields <= 32).",
+    "DESIGN.md section 2 / C06",
+)
+
 NOT_YET = {}
 
 def main():
